@@ -80,6 +80,32 @@ def cname(n):
     return n + "_" if n in KEYWORDS else n
 
 
+def _alpha(node, keep, names):
+    """ast.unparse of `node` with every name / parameter / nested function name outside `keep`
+    replaced by v0, v1, .. in order of first occurrence (`names` is extended)."""
+    import copy
+    node = copy.deepcopy(node)
+
+    def nm(x):
+        if x in keep:
+            return x
+        if x not in names:
+            names[x] = "v%d" % len(names)
+        return names[x]
+
+    def visit(n):
+        if isinstance(n, ast.FunctionDef):
+            n.name = nm(n.name)
+        if isinstance(n, ast.Name):
+            n.id = nm(n.id)
+        if isinstance(n, ast.arg):
+            n.arg = nm(n.arg)
+        for c in ast.iter_child_nodes(n):
+            visit(c)
+    visit(node)
+    return ast.unparse(ast.fix_missing_locations(node))
+
+
 def find(mod, path):
     node = mod
     for p in path.split("."):
@@ -309,14 +335,24 @@ class Tr:
     def call(self, e, env):
         f = e.func
         callee = ast.unparse(f)
+        if isinstance(f, ast.Name):
+            callee = self.facts.label_of(callee)       # private helpers are known by role
         # ---- methods on a horizon-valued receiver
-        if isinstance(f, ast.Attribute) and f.attr in METHODS:
+        if isinstance(f, ast.Attribute) and self.facts.label_of(f.attr) in METHODS:
             recv = self.ex(f.value, env)
             if recv[1] == "F":
-                m = METHODS[f.attr]
+                lab = self.facts.label_of(f.attr)
+                m = METHODS[lab]
                 self.facts.require_method(f.attr)
-                argv = self.args(e, env, m["params"], m.get("defaults", {}))
-                for (t, ty, r), want, pn in zip(argv, m["types"], m["params"]):
+                pnames, dflts = m["params"], m.get("defaults", {})
+                if lab in self.facts.params:           # private: its parameter names are its own
+                    actual = self.facts.params[lab][1:]
+                    if len(actual) != len(pnames):
+                        raise Unsupported("signature of " + f.attr)
+                    dflts = {a: dflts[p] for a, p in zip(actual, pnames) if p in dflts}
+                    pnames = actual
+                argv = self.args(e, env, pnames, dflts)
+                for (t, ty, r), want in zip(argv, m["types"]):
                     if want.startswith("O") and ty == "NONE":
                         continue
                     if want == "OZ" and ty == "Z":
@@ -361,8 +397,8 @@ class Tr:
             seq = self.elements_of(g.iter, env)
             if seq is not None and _is_str_test(e.args[0].elt, g.target.id):
                 return self.lift([seq], lambda a: ("(seq_has_str %s)" % a[0], "B", False))
-        if callee == "_check_values" and len(e.args) == 1 and not e.keywords:
-            v = self.ex(e.args[0], env)
+        if callee == "_check_values" and len(e.args) + len(e.keywords) == 1:
+            v = self.args(e, env, self.facts.params["_check_values"], {})[0]
             self.need(v[1], "IN", e)
             return self.lift([v], lambda a: ("(gen_check_values %s)" % a[0], "L", True))
         if callee == "len" and len(e.args) == 1 and not e.keywords:
@@ -377,9 +413,8 @@ class Tr:
             v = self.ex(e.args[0], env)
             self.need(v[1], "M", e)
             return self.lift([v], lambda a: ("(count_true %s)" % a[0], "Z", False))
-        if callee in ("_check_cutoff", "_check_start") and len(e.args) == 2 and not e.keywords:
-            a = self.ex(e.args[0], env)
-            b = self.ex(e.args[1], env)
+        if callee in ("_check_cutoff", "_check_start") and len(e.args) + len(e.keywords) == 2:
+            a, b = self.args(e, env, self.facts.params[callee], {})
             self.need(b[1], "L", e)
             if callee == "_check_cutoff":
                 if a[1] == "Z":
@@ -416,7 +451,7 @@ class Tr:
         the translated arguments. None if `e` is not such a call."""
         f = e.func
         fn, recv = None, None
-        entry = {c["path"] for c in FUNCS}
+        entry = {self.facts.path(c["path"]) for c in FUNCS}
         if isinstance(f, ast.Name):
             for n in self.facts.mod.body:
                 if isinstance(n, ast.FunctionDef) and n.name == f.id and f.id not in entry:
@@ -773,19 +808,129 @@ class Facts:
             raise Unsupported("DELEGATED_METHODS not found")
         cls = find(mod, "ForecastingHorizon")
         # __new__ installs the delegators: for method in DELEGATED_METHODS: setattr(cls, ...)
+        # (compared up to the names of locals and of the private delegator factory)
         new = find(mod, "ForecastingHorizon.__new__")
+        keep = {"DELEGATED_METHODS", "setattr", "getattr", "object"}
+        if len(new.args.args) < 1:
+            raise Unsupported("ForecastingHorizon.__new__ signature")
         body = [s for s in new.body if not is_docstring(s)]
-        want = ("for method in DELEGATED_METHODS:\n    setattr(cls, method, _delegator(method))",
-                "return object.__new__(cls)")
-        if [ast.unparse(s) for s in body] != list(want):
+        want = ("for v1 in DELEGATED_METHODS:\n    setattr(v0, v1, v2(v1))",
+                "return object.__new__(v0)")
+        names = {new.args.args[0].arg: "v0"}
+        if [_alpha(s, keep, names) for s in body] != list(want):
             raise Unsupported("ForecastingHorizon.__new__ shape")
-        dele = find(mod, "_delegator")
+        factory = [k for k, v in names.items() if v == "v2"][0]
+        dele = find(mod, factory)
+        if not isinstance(dele, ast.FunctionDef) or dele.decorator_list:
+            raise Unsupported("delegator factory " + factory)
         inner = [s for s in dele.body if not is_docstring(s)]
-        if len(inner) != 2 or ast.unparse(inner[1]) != "return delegated" or \
-                [ast.unparse(s) for s in inner[0].body] != [
-                    "return getattr(obj.to_pandas(), method)(*args, **kwargs)"]:
-            raise Unsupported("_delegator shape")
+        shape = ("def v0(v1):\n    def v2(v3, *v4, **v5):\n        "
+                 "return getattr(v3.to_pandas(), v1)(*v4, **v5)\n    return v2")
+        stripped = ast.FunctionDef(name=dele.name, args=dele.args, body=[
+            ast.FunctionDef(name=x.name, args=x.args, decorator_list=x.decorator_list,
+                            body=[y for y in x.body if not is_docstring(y)], lineno=0)
+            if isinstance(x, ast.FunctionDef) else x for x in inner], decorator_list=[], lineno=0)
+        text = "\n".join(x for x in _alpha(stripped, keep, {}).splitlines() if x.strip())
+        if text != shape:
+            raise Unsupported("delegator factory shape")
         self.methods = {n.name for n in cls.body if isinstance(n, ast.FunctionDef)}
+        self.resolve_roles(mod, cls)
+
+    # ---- private helpers that are regenerated on their own: found BY ROLE (call graph from the
+    # public methods), not by name; the keys below are just the labels they have in sktime 0.6.0
+    def resolve_roles(self, mod, cls):
+        modfuns = {n.name: n for n in mod.body if isinstance(n, ast.FunctionDef)}
+        meths = {n.name: n for n in cls.body if isinstance(n, ast.FunctionDef)}
+
+        def private(n):
+            return n.startswith("_") and not n.startswith("__")
+
+        def root(name):
+            if name not in meths:
+                raise Unsupported("method %s missing" % name)
+            return meths[name]
+
+        def fun_calls(fn, stmt_only=False, first_arg=None):
+            out = []
+            for n in ast.walk(fn):
+                c = n.value if isinstance(n, ast.Expr) else (None if stmt_only else n)
+                if isinstance(c, ast.Call) and isinstance(c.func, ast.Name) \
+                        and c.func.id in modfuns and private(c.func.id):
+                    if first_arg is not None and not (
+                            c.args and isinstance(c.args[0], ast.Name) and c.args[0].id == first_arg):
+                        continue
+                    if c.func.id not in out:
+                        out.append(c.func.id)
+            return out
+
+        def meth_calls(fn, recv):
+            out = []
+            for c in ast.walk(fn):
+                if isinstance(c, ast.Call) and isinstance(c.func, ast.Attribute) \
+                        and isinstance(c.func.value, ast.Name) and c.func.value.id == recv \
+                        and c.func.attr in meths and private(c.func.attr) \
+                        and c.func.attr not in out:
+                    out.append(c.func.attr)
+            return out
+
+        def one(label, cands):
+            if len(cands) != 1:
+                raise Unsupported("role %s: candidates %s" % (label, cands))
+            return cands[0]
+
+        def recv_of(fn):
+            if not fn.args.args:
+                raise Unsupported("signature of " + fn.name)
+            return fn.args.args[0].arg
+
+        init = root("__init__")
+        if len(init.args.args) < 2:
+            raise Unsupported("__init__ signature")
+        roles = {}
+        # the module-level function applied to the raw `values` parameter of the constructor
+        roles["_check_values"] = one("_check_values", fun_calls(init, first_arg=init.args.args[1].arg))
+        # the module-level procedures (called for their exception only) of the conversions
+        a = fun_calls(root("to_relative"), stmt_only=True)
+        b = fun_calls(root("to_absolute"), stmt_only=True)
+        if a != b:
+            raise Unsupported("role _check_cutoff: %s / %s" % (a, b))
+        roles["_check_cutoff"] = one("_check_cutoff", a)
+        roles["_check_start"] = one("_check_start", fun_calls(root("to_absolute_int"), stmt_only=True))
+        # the private mask methods behind is_all_in_sample / is_all_out_of_sample
+        r = root("is_all_in_sample")
+        roles["_is_in_sample"] = one("_is_in_sample", meth_calls(r, recv_of(r)))
+        r = root("is_all_out_of_sample")
+        roles["_is_out_of_sample"] = one("_is_out_of_sample", meth_calls(r, recv_of(r)))
+        # the private copy-constructor: the private method every conversion builds its result with
+        cands = None
+        for name in ("to_relative", "to_absolute", "to_absolute_int"):
+            r = root(name)
+            got = meth_calls(r, recv_of(r))
+            cands = got if cands is None else [m for m in cands if m in got]
+        roles["_new"] = one("_new", cands)
+        if len(set(roles.values())) != len(roles):
+            raise Unsupported("roles not distinct: %s" % roles)
+        self.actual = roles                                   # label -> name in this tree
+        self.label = {v: k for k, v in roles.items()}         # name in this tree -> label
+        self.params = {}                                      # label -> declared parameter names
+        for lab, name in roles.items():
+            fn = meths[name] if name in meths else modfuns[name]
+            self.params[lab] = [x.arg for x in fn.args.args]
+
+    def label_of(self, name):
+        """Role label of a private callee; a name that merely coincides with a label is not one."""
+        if name in self.label:
+            return self.label[name]
+        if name in self.actual:
+            return name + "#other"
+        return name
+
+    def path(self, path):
+        """FUNCS path (written with the labels) -> path in this tree."""
+        head, _, last = path.rpartition(".")
+        if last in self.actual:
+            return (head + "." if head else "") + self.actual[last]
+        return path
 
     def require_delegated(self, name):
         if name not in self.delegated:
@@ -799,9 +944,21 @@ class Facts:
 
 
 def translate_function(mod, cfg, facts):
-    fn = find(mod, cfg["path"])
+    label = cfg["path"].rpartition(".")[2]
+    private = cfg["src"] == "fh" and label in facts.actual
+    fn = find(mod, facts.path(cfg["path"]) if cfg["src"] == "fh" else cfg["path"])
     if not isinstance(fn, ast.FunctionDef):
         raise Unsupported(cfg["path"] + " is not a function")
+    if private:
+        # the parameter names of a private helper are its own: bound by position
+        declared = [x.arg for x in fn.args.args]
+        if len(declared) != len(cfg["params"]):
+            raise Unsupported("%s: parameters %s" % (cfg["path"], declared))
+        ren = {p[0]: d for p, d in zip(cfg["params"], declared)}
+        cfg = dict(cfg)
+        cfg["params"] = [(ren[py], coq, ty) for py, coq, ty in cfg["params"]]
+        if "defaults" in cfg:
+            cfg["defaults"] = {ren[k]: v for k, v in cfg["defaults"].items()}
     decos = [ast.unparse(d) for d in fn.decorator_list]
     if decos != cfg.get("decorators", []):
         raise Unsupported("%s: decorators %s" % (cfg["path"], decos))
